@@ -62,7 +62,8 @@ def label(t, names=NAMES):
 
     def go(x):
         if x is LEAF or x == LEAF:
-            return ident(next(it))
+            nm = next(it)
+            return nm if isinstance(nm, tuple) else ident(nm)
         k = x[0]
         if k == "un":
             return ("un", x[1], go(x[2]))
